@@ -1,10 +1,24 @@
-import Gp.Model.ReasmPool
+import Gp.Lemmas.ReasmRep
 /-
   C09 — reassembly: TCP bytes delivered in order, exactly once, gaps announced.
-  (work in progress: sequence arithmetic first)
+
+  Model: `Gp/Model/Reasm.lean` (half connection of gopacket/reassembly, tied to the source by the
+  correspondence run of engine `reasm`), specification vocabulary: `Gp/Model/ReasmSpec.lean`.
+  The sequence arithmetic (`Arith.real`) is the GENERATED translation of `Sequence.Difference/Add`
+  of the current source (`Gp/Gen/SeqReasm.lean`).
+
+  Reading guide.  A history of one direction of a connection is a list of `HOp`s: `seg` (one
+  AssembleWithContext call: segment, the stream's Accept answer, its KeepFrom rule, and the assembler
+  options / page counter at that moment — arbitrary, they depend on other connections), `skipFlush`,
+  `flushClose`, `flushAll` (what FlushWithOptions / FlushAll do to this half connection).
+  `HOp.OK S i` = the segment is consistent with sender stream `S` and initial sequence number `i`
+  (numbers NOT reduced: `HOp.wrap` reduces them modulo 2^32 as on the wire); `hrun` collects every
+  ScatterGather handed to the stream; `Rep S a sgs a'` says they are a correct presentation of `S`.
 -/
 namespace Gp.C09
 open Gp Gp.Reasm
+
+/-! ### rung 1 — sequence arithmetic (generated definitions) -/
 
 /-- `Sequence.Difference` of the CURRENT source is the signed distance on the 2^32 circle for every
     pair of sequence numbers less than 2^30 apart — in particular across the wrap. -/
@@ -20,5 +34,154 @@ theorem seq_add_mod (s n : Int) : Arith.real.add s n = (s + n) % 4294967296 := b
 
 example : Arith.real.diff 4294967295 0 = 1 := by decide
 example : Arith.real.diff 4294967280 16 = 32 := by decide
+example : Arith.real.add 4294967295 1 = 0 := by decide
+
+/-! ### rungs 1–5 — soundness for every history (layer A + layer B) -/
+
+/-- **Soundness.**  Fix a sender stream `S` and an initial sequence number `i` anywhere in the sequence
+    space, `|S| + 2 < 2^30`.  For EVERY history of the half connection whose segments are consistent with
+    `S`, `i` — any segmentation, order, duplication, overlap, SYN first / late / missing / retransmitted /
+    carrying data, FIN/RST, interleaved flushes, any limits, any KeepFrom answers, any Accept rejections —
+    the model with the generated wrap arithmetic on wire sequence numbers
+    * never panics or fails (every Go slice expression in the modelled code is in range), and
+    * hands the stream ScatterGathers that are a correct presentation of `S` (`Rep`): new bytes are
+      `S[p : p+n]` with `p` = previous position + announced skip — nothing duplicated, reordered, altered or
+      invented; saved bytes are the bytes of `S` directly in front of the new ones, exactly as many as the
+      stream asked to keep (when contiguous); skip = -1 only while no position is known. -/
+theorem reasm_sound (S : List UInt8) (i : Int) (hi : 0 ≤ i) (hwin : S.length + 2 < 1073741824)
+    (ops : List HOp) (hok : ∀ op ∈ ops, op.OK S i) :
+    ∃ h sgs a, hrun Arith.real {} (ops.map HOp.wrap) = .ok (h, sgs) ∧ Rep S .unknown sgs a := by
+  have hA := hrun_wrap S i hi hwin ops {} (Or.inr (inv_init S (i + 1) 0)) hok
+  obtain ⟨⟨h, sgs⟩, hr, _, hrep⟩ := hrun_spec S i hi ops {} (Or.inr (inv_init S (i + 1) 0)) hok
+  rw [half_wrap_init] at hA
+  rw [hA, hr]
+  refine ⟨h.wrap, sgs, absPos (i + 1) h, rfl, ?_⟩
+  have : absPos (i + 1) ({} : Half) = .unknown := by simp [absPos]
+  rw [this] at hrep
+  exact hrep
+
+/-- The replay of the property text.  If the first thing the stream gets does not say "start not seen"
+    (skip ≠ -1), then replaying all ScatterGathers from offset 0 —
+    `pos += skip; new = S[pos : pos+|new|]; pos += |new|` — succeeds for every one of them. -/
+theorem reasm_sound_replay (S : List UInt8) (i : Int) (hi : 0 ≤ i) (hwin : S.length + 2 < 1073741824)
+    (ops : List HOp) (hok : ∀ op ∈ ops, op.OK S i) (h : Half) (g : SG) (rest : List SG)
+    (hrun' : hrun Arith.real {} (ops.map HOp.wrap) = .ok (h, g :: rest)) (hstart : g.skip ≠ -1) :
+    Replay S 0 (g :: rest) := by
+  obtain ⟨h', sgs, a, hr, hrep⟩ := reasm_sound S i hi hwin ops hok
+  rw [hrun'] at hr
+  obtain ⟨_, rfl⟩ := Prod.mk.inj (Res.ok.inj hr)
+  have := hrep.unknown_first
+  exact this.2.1 (this.1.resolve_left hstart)
+
+/-- Kept bytes: the saved bytes of every ScatterGather are the bytes of `S` directly in front of its new bytes
+    (unchanged), and the first one has none. -/
+theorem reasm_kept_bytes (S : List UInt8) (i : Int) (hi : 0 ≤ i) (hwin : S.length + 2 < 1073741824)
+    (ops : List HOp) (hok : ∀ op ∈ ops, op.OK S i) (h : Half) (sgs : List SG)
+    (hrun' : hrun Arith.real {} (ops.map HOp.wrap) = .ok (h, sgs)) :
+    ∀ g ∈ sgs, ∃ p : Nat, g.new = slice S p g.new.length ∧ g.saved.length ≤ p ∧
+      g.saved = slice S (p - g.saved.length) g.saved.length := by
+  obtain ⟨h', sgs', a, hr, hrep⟩ := reasm_sound S i hi hwin ops hok
+  rw [hrun'] at hr
+  obtain ⟨_, rfl⟩ := Prod.mk.inj (Res.ok.inj hr)
+  exact hrep.saved_in_front
+
+/-! ### gaps are announced, and only a flush or a limit releases data beyond a gap -/
+
+/-- After ANY consistent history, an AssembleWithContext step of a consistent segment with no page limit
+    configured hands the stream only ScatterGathers with skip = 0: data beyond a gap is never released by
+    Assemble itself.  (With a limit, and for flushes, `reasm_sound` says the skip is the number of missing
+    bytes: the new bytes are `S[pos+skip : …]`.) -/
+theorem reasm_gap_only_on_flush (S : List UInt8) (i : Int) (hi : 0 ≤ i) (hwin : S.length + 2 < 1073741824)
+    (ops : List HOp) (hok : ∀ op ∈ ops, op.OK S i) (h : Half) (sgs : List SG)
+    (hrun' : hrun Arith.real {} (ops.map HOp.wrap) = .ok (h, sgs))
+    (p : Seg) (acc : Nat) (keep : KeepRule) (cfg : Cfg) (used : Int)
+    (hp : SegOK S i p) (hacc : acc ≤ 1) (hcfg : cfg.maxPer ≤ 0 ∧ cfg.maxTotal ≤ 0) :
+    ∃ o, assemble Arith.real cfg h used p.wrap acc keep = .ok o ∧ ∀ g ∈ o.sgs, g.skip = 0 := by
+  have hA := hrun_wrap S i hi hwin ops {} (Or.inr (inv_init S (i + 1) 0)) hok
+  obtain ⟨⟨hI, sgsI⟩, hr, hinv, _⟩ := hrun_spec S i hi ops {} (Or.inr (inv_init S (i + 1) 0)) hok
+  rw [half_wrap_init, hr, hrun'] at hA
+  obtain ⟨rfl, _⟩ := Prod.mk.inj (Res.ok.inj hA)
+  obtain ⟨o, ho, _, hskip⟩ := assemble_spec S i hi cfg hI used p acc keep hinv hp hacc
+  refine ⟨o.wrap, ?_, hskip hcfg⟩
+  have := assemble_wrap S i hi hwin cfg hI used p acc keep hinv hp hacc
+  rw [ho] at this
+  exact this
+
+/-- skip = -1 ("no idea how much was skipped") occurs at most on the very first ScatterGather of a direction,
+    where it means that the start was not seen; every other skip is a byte count ≥ 0. -/
+theorem reasm_skip_minus1_only_first (S : List UInt8) (i : Int) (hi : 0 ≤ i) (hwin : S.length + 2 < 1073741824)
+    (ops : List HOp) (hok : ∀ op ∈ ops, op.OK S i) (h : Half) (g : SG) (rest : List SG)
+    (hrun' : hrun Arith.real {} (ops.map HOp.wrap) = .ok (h, g :: rest)) :
+    (g.skip = -1 ∨ g.skip = 0) ∧ ∀ g' ∈ rest, 0 ≤ g'.skip := by
+  obtain ⟨h', sgs, a, hr, hrep⟩ := reasm_sound S i hi hwin ops hok
+  rw [hrun'] at hr
+  obtain ⟨_, rfl⟩ := Prod.mk.inj (Res.ok.inj hr)
+  exact ⟨hrep.unknown_first.1, hrep.unknown_first.2.2.1⟩
+
+/-! ### completeness -/
+
+/-- Full statement (not proved): once the SYN and every byte of `S` have been accepted, and nothing was flushed
+    or released by a limit, the new bytes handed over, concatenated, are exactly `S`.
+    Missing: a coverage invariant through `checkOverlap` ("every accepted byte is either already passed on or
+    inside a queued page"), i.e. that the six overlap cases never drop a byte that is not re-supplied by the
+    packet being inserted.  `reasm_sound` already excludes wrong or duplicated bytes; what is not proved is
+    that nothing stays queued for ever. -/
+def reasm_complete_full : Prop :=
+  ∀ (S : List UInt8) (i : Int), 0 ≤ i → S.length + 2 < 1073741824 →
+  ∀ (segs : List (Seg × KeepRule × Cfg × Int)),
+    (∀ x ∈ segs, SegOK S i x.1 ∧ x.2.2.1.maxPer ≤ 0 ∧ x.2.2.1.maxTotal ≤ 0) →
+    (∃ x ∈ segs, x.1.syn = true) →
+    (∀ o : Nat, o < S.length → ∃ x ∈ segs, ∃ k : Nat, x.1.dataSeq + k = i + 1 + o ∧ k < x.1.bytes.length) →
+    ∀ h sgs, hrun Arith.real {} ((segs.map (fun x => HOp.seg x.1 1 x.2.1 x.2.2.1 x.2.2.2)).map HOp.wrap) = .ok (h, sgs) →
+      newBytes sgs = S
+
+/-- Proved part: whatever is handed over without an announced gap is a PREFIX of `S` — for histories of
+    accepted consistent segments without limits (no flush, no limit ⇒ every skip is 0 by
+    `reasm_gap_only_on_flush`), provided the SYN was processed before anything was released. -/
+theorem reasm_complete_partial (S : List UInt8) (i : Int) (hi : 0 ≤ i) (hwin : S.length + 2 < 1073741824)
+    (ops : List HOp) (hok : ∀ op ∈ ops, op.OK S i) (h : Half) (sgs : List SG)
+    (hrun' : hrun Arith.real {} (ops.map HOp.wrap) = .ok (h, sgs)) (hnoskip : ∀ g ∈ sgs, g.skip = 0) :
+    newBytes sgs = S.take (newBytes sgs).length := by
+  cases sgs with
+  | nil => simp [newBytes]
+  | cons g rest =>
+    have hrp := reasm_sound_replay S i hi hwin ops hok h g rest hrun'
+      (by rw [hnoskip g (List.mem_cons_self ..)]; decide)
+    have := hrp.noskip hnoskip
+    simpa [slice] using this
+
+/-! ### non-vacuity: a history that crosses the 2^32 wrap, out of order, with an overlapping retransmission,
+    KeepFrom and a flush satisfies the hypotheses and produces data -/
+
+def exS : List UInt8 := [1, 2, 3, 4, 5, 6, 7, 8]
+def exI : Int := 4294967292      -- SYN at 2^32-4, stream bytes 2^32-3 … 2^32+4: the wrap is inside the stream
+def exSeg (off : Nat) (n : Nat) (syn fin : Bool) : Seg :=
+  { seq := if syn then exI else exI + 1 + off, syn := syn, fin := fin, rst := false,
+    bytes := (exS.drop off).take n, ts := 1 }
+def exOps : List HOp :=
+  [ .seg (exSeg 4 2 false false) 1 .none {} 0,                 -- queued before the start
+    .seg (exSeg 0 0 true false) 1 .none {} 0,                  -- SYN
+    .seg (exSeg 0 3 false false) 1 (.fromEnd 1) {} 0,          -- in order, stream keeps 1 byte
+    .seg (exSeg 2 3 false false) 1 .none {} 0,                 -- overlaps delivered and queued data
+    .skipFlush .none 0,
+    .seg (exSeg 6 2 false true) 1 .none {} 0 ]                 -- FIN
+
+example : ∀ op ∈ exOps, op.OK exS exI := by
+  intro op hop
+  simp only [exOps, List.mem_cons, List.mem_nil_iff, or_false] at hop
+  rcases hop with rfl | rfl | rfl | rfl | rfl | rfl <;>
+    first
+    | trivial
+    | (refine ⟨⟨by decide, ?_, by decide⟩, by decide⟩
+       first
+       | exact ⟨0, by decide, by decide, by decide⟩
+       | exact ⟨2, by decide, by decide, by decide⟩
+       | exact ⟨4, by decide, by decide, by decide⟩
+       | exact ⟨6, by decide, by decide, by decide⟩)
+
+example : (match hrun Arith.real {} (exOps.map HOp.wrap) with
+    | .ok (_, sgs) => sgs.map (fun g => (g.skip, g.saved, g.new))
+    | _ => []) =
+    [(0, [], []), (0, [], [1, 2, 3]), (0, [3], [4, 5, 6]), (0, [], [7, 8])] := by decide
 
 end Gp.C09
